@@ -558,6 +558,16 @@ class Builder:
             names = [a["name"] for a in tt["attrs"]]
             action["op"] = {"incl": (rng.choice(["include", "exclude"]), rng.sample(names, rng.randint(0, min(2, len(names))))),
                             "defaults": [], "edges": [], "appends": None}
+            if is_creator:
+                # default edges of a threaded creator: to unthreaded promises whose creator is an ancestor -- through
+                # the action's own checkpoint or only through a checkpoint of its thread group(s)
+                for a in tt["attrs"]:
+                    if a["kind"][0] == "E" and rng.random() < 0.5:
+                        cands = [p for p, c in self.creator.items() if c in a_anc
+                                 and next(q for q in s["promises"] if q["id"] == p)["type"] == a["kind"][1]
+                                 and next(q for q in s["promises"] if q["id"] == p)["ctx"] is None]
+                        if cands:
+                            action["op"]["edges"].append((a["name"], ("promise", rng.choice(sorted(cands)))))
             s["actions"].append(action)
             self.anc[aid] = a_anc
             mine.append(aid)
